@@ -5,7 +5,7 @@ HERE = os.path.dirname(os.path.dirname(os.path.abspath(__file__)))
 
 CLAIMED = {
  "C15": dict(
-   text="Structural clauses of the reorder buffer decided for every path of every handler: back-pressure discipline around each Send, FIFO-only list operations with retirement from the head, capacity guard with a >= predicate that is re-evaluated before every insertion of a cycle, provenance of every copied field and of the response's RspTo/Dst/Data, flush/restart clearing and gating. Chosen because ordering, exactly-once and field-faithfulness of this 330-line component are visible in the shape of its code on all paths, which no finite set of request streams covers.",
+   text="Structural clauses of the reorder buffer decided for every path of every handler: back-pressure discipline around each Send, FIFO-only list operations with retirement from the head, capacity guard with a >= predicate that is re-evaluated before every insertion of a cycle, provenance of every copied field and of the response's RspTo/Dst/Data, flush/restart clearing and gating. Every control port the shader array exports reaches the command processor in both timing platforms, so a GPU flush reaches every reorder buffer. Chosen because ordering, exactly-once and field-faithfulness of this 330-line component are visible in the shape of its code on all paths, which no finite set of request streams covers.",
    ref="4/C15", technique="SSA path analysis with inlining and nil/bool fact pruning (SEND-DISCIPLINE), dominance cuts (GUARD), value provenance (FIELDS), who-may-call on container/list operations",
    note="akita port/list semantics trusted; timing and per-cycle widths not decided"),
  "C16": dict(
@@ -20,7 +20,7 @@ CLAIMED = {
 
 CLAIMED.update({
  "C17": dict(
-   text="Structural clauses of the banked DRAM model on all paths: one response per request under back-pressure (CanSend/Send discipline, pop after success, storage access once across retries), per-byte mask guard of masked writes (the request buffer or any contiguous slice of it reaches storage only when the mask is nil), conservation of requests in the dispatch and drain loops, per-bank arrival order (no direct pipeline entry while the delay queue may hold earlier requests), provenance of response fields and storage accesses. Read-after-write values and latency independence are runtime quantities and are not decided.",
+   text="Structural clauses of the banked DRAM model on all paths: one response per request under back-pressure (CanSend/Send discipline, pop after success, storage access once across retries), per-byte mask guard of masked writes (the request buffer or any contiguous slice of it reaches storage only when the mask is nil), conservation of requests in the dispatch and drain loops, per-bank arrival order (no direct pipeline entry while the delay queue may hold earlier requests), provenance of response fields and storage accesses. Requests of one bank leave the pending list in arrival order (a pending request blocks its bank for the pass), the delay queue releases in arrival order, one pipeline lane per bank and bank selection covering the whole access (two known findings). Read-after-write values and latency independence are runtime quantities and are not decided.",
    ref="4/C17", technique="SSA path analysis (SEND-DISCIPLINE, must-pass, exactly-one-sink per loop iteration), dominance cuts (GUARD), value provenance (FIELDS)",
    note="akita pipelining/Storage trusted; bank selection arithmetic and latencies not decided; one recorded known finding (row-hit fast path)"),
  "C19": dict(
@@ -42,7 +42,7 @@ CLAIMED.update({
    ref="4/C09", technique="SIBLINGS over implementations of one interface, SSA path analysis (SEND-DISCIPLINE, must-pass), dominance cuts with phi-fact pruning (GUARD), value provenance, constant tables",
    note="resourceMask internals, gridbuilder and the CU-side completion (C14) not covered here; one defect (LDS demand ignored dynamic local memory) found and repaired by a fix: commit"),
  "C11": dict(
-   text="Structural clauses of host-device copies: the range-overlap predicate decided on all 75 weak orderings of its arguments (order-domain abstract interpretation of its comparison skeleton), completion only on an empty outstanding list / finished request collection, six splitting loops (chunk = min(remaining, address-dependent unit remainder), one step for all cursors, slice and size = chunk), piece addressing via the page found for the address, SEND-DISCIPLINE of DMA/CP/driver send stages, clone FIELDS, flush-before-copy ordering and CP gates, dirty marks kept per process (launches mark and copies consult the buffers of every context with the command's PID), a copy command enters the running state only for a non-zero size, and every response handler that removes a request from a command can retire it. Byte equality for all offsets/lengths is not decided.",
+   text="Structural clauses of host-device copies: the range-overlap predicate decided on all 75 weak orderings of its arguments (order-domain abstract interpretation of its comparison skeleton), completion only on an empty outstanding list / finished request collection, six splitting loops (chunk = min(remaining, address-dependent unit remainder), one step for all cursors, slice and size = chunk), piece addressing via the page found for the address, SEND-DISCIPLINE of DMA/CP/driver send stages, clone FIELDS, flush-before-copy ordering and CP gates, dirty marks kept per process (launches mark and copies consult the buffers of every context with the command's PID), a copy command enters the running state only for a non-zero size, and every response handler that removes a request from a command can retire it. Every copy middleware tests for dirty buffers or never meets a cache (known finding for the direct-storage path on the timing platform); storage errors on a copy path are not dropped; the device-to-device kernel gets grid and bound in one unit. Byte equality for all offsets/lengths is not decided.",
    ref="4/C11", technique="order-domain abstract interpretation (ORDER-DOMAIN), SSA loop-shape analysis of splitting loops, SSA path analysis (SEND-DISCIPLINE, must-pass), dominance cuts (GUARD), value provenance (FIELDS)",
    note="arithmetic over runtime values and cache flush effectiveness not decided; 3 unchecked Sends of the CP middleware recorded as known findings; four defects (memRangeOverlap containment, zero-length copies never completing, copies never completing when a flush of another GPU returned last - the cause of the repository's hanging mccl suite -, dirty tracking per context instead of per process) repaired by fix: commits"),
 })
@@ -56,7 +56,7 @@ CLAIMED.update({
 
 CLAIMED.update({
  "C04": dict(
-   text="Totality and determinism of decoding decided from the tables and the shape of amd/insts: the format table (mask/encoding consistency, overlap and specificity order, opcode fields) which makes format matching independent of map order and sort stability; the decode table of about 1000 rows evaluated from constant expressions (duplicates, field widths, VOP3b routing, dispatch coverage); every getOperand call site against the computed set of defined operand codes using an interval analysis of the code argument; per-format bounds of every buffer access; size accounting incl. the single literal dword shared by two literal operands and an opcode-specific size step for every mnemonic that carries a 32-bit constant; immutability of the decode tables on the decode path; register families of getOperand covered completely; the single-bit helper; a nil test before a lazily created decode table is dereferenced; destination fields that cannot hold constants; the key of every decode cache covering all arguments that select the bytes read (address and process); error handling at the three callers; every field extraction of the decode functions and the format table compared with the microcode formats of the ISA manuals transcribed as (format, field) -> (dword, bit range) tables; agreement of the mnemonics of the two encodings of each vector instruction (VOP2/VOP1/VOPC row versus its VOP3 row); the bit-extraction helpers decided by bit provenance for every constant range used. The inverse property decode(encode(d)) = d is value level and not decided.",
+   text="Totality and determinism of decoding decided from the tables and the shape of amd/insts: the format table (mask/encoding consistency, overlap and specificity order, opcode fields) which makes format matching independent of map order and sort stability; the decode table of about 1000 rows evaluated from constant expressions (duplicates, field widths, VOP3b routing, dispatch coverage); every getOperand call site against the computed set of defined operand codes using an interval analysis of the code argument; per-format bounds of every buffer access; size accounting incl. the single literal dword shared by two literal operands and an opcode-specific size step for every mnemonic that carries a 32-bit constant; immutability of the decode tables on the decode path; register families of getOperand covered completely; the single-bit helper; a nil test before a lazily created decode table is dereferenced; destination fields that cannot hold constants; the key of every decode cache covering all arguments that select the bytes read (address and process); error handling at the three callers; every field extraction of the decode functions and the format table compared with the microcode formats of the ISA manuals transcribed as (format, field) -> (dword, bit range) tables; agreement of the mnemonics of the two encodings of each vector instruction (VOP2/VOP1/VOPC row versus its VOP3 row); the bit-extraction helpers decided by bit provenance for every constant range used. Every format decoder applies the table's 64-bit widths to the operands it fills; each table row agrees with its own mnemonic on operand widths and, for the VOP3b carry family, operand presence; the VOP3b rows are exactly the ISA's list; the complete field list of each format is covered by the decoder's extractions; scalar register operands built from raw fields stay inside s0..s101. The inverse property decode(encode(d)) = d is value level and not decided.",
    ref="4/C04", technique="constant-table evaluation from the type-checked syntax (TABLE), interval analysis on SSA (INTERVAL), dominance cuts (GUARD), decision-table evaluation of getOperand's switch",
    note="opcode numbers versus the ISA manuals are not compared (only the two encodings of one instruction with each other); the transcribed field layouts are part of the trusted base; ten genuine defects (dropped getOperand errors, unguarded buf[:4], literal dword counted twice in SOP2/SOPC, ttmp11 rejected, GDS bit taken from bit 4, s_setreg_imm32_b32 sized 4 bytes, constants accepted as destinations, v_madak/v_madmk with a literal sized 12 bytes, emulator decode cache keyed by address only, SDWA S0 flag read from the wrong bit) found and repaired by fix: commits"),
 })
@@ -77,7 +77,7 @@ CLAIMED.update({
 
 CLAIMED.update({
  "C03": dict(
-   text="ISA rules that are uniform across opcodes and visible in the code shape, for both ALUs and all paths: dispatch integrity of every opcode switch (one handler per case, panicking default, listed functional no-ops only), ALL-OR-NONE of condition-code writes in every handler, shift-amount intervals in every handler of a shift instruction (handlers tied to instruction names through decode table, dispatch switch and callee), destination-only operand writes and PC/EXEC writers restricted by instruction name, carry predicates of carry-in instructions evaluated in 64 bits, every float-to-integer conversion of an operand value reached only after range tests on the floating-point value (and no clamp that the operand's type makes dead), no result variable left at its zero value by an open if/else-if chain; every compare handler decided exactly on the ordering domain {less, equal, greater, unordered} against the truth table its mnemonic prescribes, with kind / signedness / width of the compared values; LDS handlers address ADDR plus their (scaled) offset field; bitwise handlers decided exactly by per-bit truth tables; operand selection of integer min/max, polarity of cndmask/cselect/cmov and of conditional branches with their target formula, operand order of sub/subrev and shift/shiftrev pairs; sources read before destinations are written; bits 32..63 of a raw operand never decide the result of a 32-bit instruction; SCC of signed add/sub from the signed overflow condition; IEEE bit patterns never used as numbers; float min / max decided on ranks and NaN operands; the SDWA select helpers decided bit by bit (origin of every result bit for every select constant and dst_unused mode) and SDWA-encoded instructions never executed as plain ones; VOP3 abs / neg modifiers applied to every data source of the instructions that accept them; every decoded field of an instruction consulted by execution or exempt with a reason; no dispatch case without a decode row; no ALU helper ignoring a parameter. Bit-exact arithmetic conformance needs an executable ISA transcription and is not decided.",
+   text="ISA rules that are uniform across opcodes and visible in the code shape, for both ALUs and all paths: dispatch integrity of every opcode switch (one handler per case, panicking default, listed functional no-ops only), ALL-OR-NONE of condition-code writes in every handler, shift-amount intervals in every handler of a shift instruction (handlers tied to instruction names through decode table, dispatch switch and callee), destination-only operand writes and PC/EXEC writers restricted by instruction name, carry predicates of carry-in instructions evaluated in 64 bits, every float-to-integer conversion of an operand value reached only after range tests on the floating-point value (and no clamp that the operand's type makes dead), no result variable left at its zero value by an open if/else-if chain; every compare handler decided exactly on the ordering domain {less, equal, greater, unordered} against the truth table its mnemonic prescribes, with kind / signedness / width of the compared values; LDS handlers address ADDR plus their (scaled) offset field; bitwise handlers decided exactly by per-bit truth tables; operand selection of integer min/max, polarity of cndmask/cselect/cmov and of conditional branches with their target formula, operand order of sub/subrev and shift/shiftrev pairs; sources read before destinations are written; bits 32..63 of a raw operand never decide the result of a 32-bit instruction; SCC of signed add/sub from the signed overflow condition; IEEE bit patterns never used as numbers; float min / max decided on ranks and NaN operands; the SDWA select helpers decided bit by bit (origin of every result bit for every select constant and dst_unused mode) and SDWA-encoded instructions never executed as plain ones; VOP3 abs / neg modifiers applied to every data source of the instructions that accept them; every decoded field of an instruction consulted by execution or exempt with a reason; no dispatch case without a decode row; no ALU helper ignoring a parameter. One handler serves only mnemonics of one operand format and never both an IEEE instruction and its legacy form; inline float constants have the operand's width in both register stores; no carry test compares against a wrapping unsigned difference (interval evaluation); lane masks are accumulated from zero; the unsigned add/sub family contains no signed ordering test; float-to-int conversions are dominated by a NaN test and clamp to the type's bound; a handler that copies its single source serves a move; SOPK immediates are widened as their type says (bit provenance of the handler's expressions). Bit-exact arithmetic conformance needs an executable ISA transcription and is not decided.",
    ref="4/C03", technique="constant-table evaluation (decode table and dispatch switches), must-pass path analysis (ALL-OR-NONE), interval analysis on SSA (INTERVAL), who-may-write, finite-domain evaluation of comparison skeletons (ORDER-DOMAIN), bit-provenance evaluation of field helpers (BITPROV), value provenance of addresses",
    note="arithmetic, rounding, saturation and comparison semantics of individual opcodes are not decided; defect families found and repaired by fix: commits: one-sided SCC, unmasked shifts, v_cvt_i32_f32 saturation tested after conversion, v_div_scale_f64 default result and denormal classification, compare handlers (lg/nlg NaN, u32 width, CDNA3 ge_f32_e64), ds_read_b64 offset, 20 handlers of 32-bit instructions reading 64 operand bits, s_addc_u32 carry, s_cmpk compares, float min/max with a NaN operand, SDWA dst_unused and SDWA add, SDWA silently ignored by 36 VOP2 handlers, v_cndmask_b32_e64 / v_div_scale ignoring abs and neg, clamp and GDS bits dropped, CDNA3 v_div_scale_f64 filed under the wrong opcode; known findings pinned by upstream tests: GCN3 s_add_i32 SCC, v_div_fixup_f64 using bit patterns as numbers (14 sites)"),
 })
@@ -91,14 +91,14 @@ CLAIMED.update({
 
 CLAIMED.update({
  "C10": dict(
-   text="Structural clauses of device memory management on all paths: a lockset analysis of the allocator (every field access under the embedded mutex; helpers reached only from lock-holding call sites), pairing of every page-table write with the allocator's vAddr mirror plus who-may-write the page table, physical addresses taken only from the device memory state and returned to it only as the freed page's own address, no container mutated while ranged in the driver packages, page-granular cursor and size arithmetic, Free looping over exactly the page count recorded at allocation with a one-page stride, the key shape of the allocator's page maps (process + virtual address), every page's DeviceID derived from its own physical address, release of the previous physical page when a virtual page is re-homed, and the buddy allocator's parent merge bit flipped for every block taken from a free list. Invariants over allocate/free/remap histories are state-machine properties and are not decided.",
+   text="Structural clauses of device memory management on all paths: a lockset analysis of the allocator (every field access under the embedded mutex; helpers reached only from lock-holding call sites), pairing of every page-table write with the allocator's vAddr mirror plus who-may-write the page table, physical addresses taken only from the device memory state and returned to it only as the freed page's own address, no container mutated while ranged in the driver packages, page-granular cursor and size arithmetic, Free looping over exactly the page count recorded at allocation with a one-page stride, the key shape of the allocator's page maps (process + virtual address), every page's DeviceID derived from its own physical address, release of the previous physical page when a virtual page is re-homed, and the buddy allocator's parent merge bit flipped for every block taken from a free list. The allocator's device ranges start where the platforms' do (known finding). Invariants over allocate/free/remap histories are state-machine properties and are not decided.",
    ref="4/C10", technique="lockset dataflow with call-site propagation (guarded-by), PAIR and who-may-write on SSA, syntactic range-mutation rule, value provenance of cursor arithmetic",
    note="disjointness of live physical pages over histories and the buddy allocator's internal state are not decided; five defects (stale mirror entry on free, mutate-while-ranging in removeFreedBuffers, Free releasing only the first page, remapped pages recorded on a unified device, buddy merge bit) repaired by fix: commits; three known findings (mirror keyed without the PID; old physical page leaked by Remap and by migration)"),
 })
 
 CLAIMED.update({
  "C05": dict(
-   text="Structural sources of host-dependent order and values in all code that runs inside a simulation (driver, emulator, decoder, kernels, protocol, sampling, every timing component, timing configuration, NVIDIA model): every range over a map is classified as order-insensitive or carries a one-line exception that is re-validated where possible (InstType.ID has no reader), host-dependent value sources are enumerated against an exception table whose sinks are checked to have no reader, goroutines / multi-way selects and unstable sorts are inventoried, and whoever wakes the simulation goroutine returns to the application only with the queue found empty (the engine never runs while the single application thread is still enqueueing). Equality of whole runs across host schedules is a runtime quantity and is not decided.",
+   text="Structural sources of host-dependent order and values in all code that runs inside a simulation (driver, emulator, decoder, kernels, protocol, sampling, every timing component, timing configuration, NVIDIA model): every range over a map is classified as order-insensitive or carries a one-line exception that is re-validated where possible (InstType.ID has no reader), host-dependent value sources are enumerated against an exception table whose sinks are checked to have no reader, goroutines / multi-way selects and unstable sorts are inventoried, and whoever wakes the simulation goroutine returns to the application only with the queue found empty (the engine never runs while the single application thread is still enqueueing). A workload that seeds the global generator runs with an effective seed (go.mod), and the application thread resumes only behind a wait for the simulation goroutine (two known findings). Equality of whole runs across host schedules is a runtime quantity and is not decided.",
    ref="4/C05", technique="type-resolved syntactic classification of map ranges, source/sink enumeration with who-may-read, inventory of concurrency constructs and sorts",
    note="akita's engines are outside /repo; the parallel engine and float summation order inside kernels are not decided; one defect (map-order iteration in page migration) found and repaired by a fix: commit"),
 })
@@ -112,7 +112,7 @@ CLAIMED.update({
 
 CLAIMED.update({
  "C02": dict(
-   text="Eight necessary conditions of functional transparency of timing mode, decided structurally: architectural state of timing wavefronts is changed only through the shared emulation ALU (who-may-call with a frozen allow-list; ALU obtained only from emu.NewALU or the injected factory); the initial-register code of the two modes is reduced to comparable summaries (enable flag, bytes reserved, value; lane-id registers incl. the V5 packed form); the SMEM and FLAT opcode sets of both ALUs and of the timing units agree, including, for sub-dword loads, the number of memory bytes that reach the register and their sign/zero extension in the timing write-back versus the emulation handler; cache flushes precede copies that touch dirty buffers; the timing-only outstanding-access counters are decremented only through the last-piece test of a memory return (in the function or all its callers); the pieces of a split scalar load land in consecutive registers; the kernel-launch path reaches a flush of the non-coherent per-CU L1 caches; a platform that installs the CDNA3 ALU also configures its decoder for CDNA3 and the timing compute unit installs the decoder it is given. Equality of final memory and PC traces is a runtime quantity and is not decided.",
+   text="Eight necessary conditions of functional transparency of timing mode, decided structurally: architectural state of timing wavefronts is changed only through the shared emulation ALU (who-may-call with a frozen allow-list; ALU obtained only from emu.NewALU or the injected factory); the initial-register code of the two modes is reduced to comparable summaries (enable flag, bytes reserved, value; lane-id registers incl. the V5 packed form); the SMEM and FLAT opcode sets of both ALUs and of the timing units agree, including, for sub-dword loads, the number of memory bytes that reach the register and their sign/zero extension in the timing write-back versus the emulation handler; cache flushes precede copies that touch dirty buffers; the timing-only outstanding-access counters are decremented only through the last-piece test of a memory return (in the function or all its callers); the pieces of a split scalar load land in consecutive registers; the kernel-launch path reaches a flush of the non-coherent per-CU L1 caches; a platform that installs the CDNA3 ALU also configures its decoder for CDNA3 and the timing compute unit installs the decoder it is given. In both modes the ALU observes the executing instruction's PC (the emulator advances it after the ALU ran; PC-derived results agree between the two ALUs). Equality of final memory and PC traces is a runtime quantity and is not decided.",
    ref="4/C02", technique="who-may-call on SSA, summaries of sibling functions from the type-checked syntax (SIBLINGS), opcode-set comparison of dispatch switches (TABLE), must-pass path analysis",
    note="coalescer and write-back value correctness, scoreboard hazards, caches and DRAM are not decided; five defects (s_load_dwordx16, flat_load_sbyte and flat_load_ushort write-back, V5 packed ids in timing, MI300A timing platform decoding with GCN3 rules) repaired by fix: commits; two SGPR-reservation divergences and the missing L1 flush between kernels (bitonicsort fails in timing mode) recorded as known findings"),
 })
